@@ -64,6 +64,8 @@ type world struct {
 	keys   []crypto.PrivKeyEd25519 // by slot (address order)
 	addrs  []crypto.Address
 	valSet *types.ValidatorSet
+	next       *types.ValidatorSet // set in force at H+1 (see nextSet)
+	changeNext bool
 	power  []*big.Int
 	total  *big.Int
 
@@ -297,6 +299,7 @@ func newWorld(c *kernel.Ctx) *world {
 		vals = append(vals, &types.Validator{Address: a, PubKey: pk, CoinBase: cb, VotingPower: pw[len(vals)]})
 	}
 	w.valSet = types.NewValidatorSet(vals)
+	w.changeNext = t.Fork("nextset").Bool(1, 2)
 	w.total = new(big.Int)
 	for i := 0; i < w.n; i++ {
 		a, v := w.valSet.GetByIndex(i)
@@ -344,6 +347,31 @@ func newWorld(c *kernel.Ctx) *world {
 	return w
 }
 
+// nextSet is the validator set in force at height H+1. In half of the runs it
+// differs from the set at H (the same keys with the powers rotated by one
+// position and the first one tripled): a commit for H must be judged by the
+// set of H, never by the set of H+1.
+func (w *world) nextSet() *types.ValidatorSet {
+	if w.next != nil {
+		return w.next
+	}
+	vals := make([]*types.Validator, 0, w.valSet.Size())
+	n := w.valSet.Size()
+	for i, v := range w.valSet.Validators {
+		c := v.Copy()
+		c.Accum = 0
+		if w.changeNext && n >= 2 {
+			c.VotingPower = w.valSet.Validators[(i+1)%n].VotingPower
+			if i == 0 && c.VotingPower < 1<<40 {
+				c.VotingPower *= 3
+			}
+		}
+		vals = append(vals, c)
+	}
+	w.next = types.NewValidatorSet(vals)
+	return w.next
+}
+
 const partSize = 4096
 
 // makeBlock builds a block whose self-consistency fields are filled the way
@@ -354,7 +382,11 @@ func (w *world) makeBlock(h uint64, last types.BlockID, lastCommit *types.Commit
 	b.ChainID = w.chainID
 	b.TotalTxs = 0
 	b.LastBlockID = last
-	b.ValidatorsHash = common.BytesToHash(w.valSet.Hash())
+	vh := w.valSet.Hash()
+	if h > w.H {
+		vh = w.nextSet().Hash() // the set in force at the next height
+	}
+	b.ValidatorsHash = common.BytesToHash(vh)
 	b.ConsensusHash = common.BytesToHash(consParams.Hash())
 	b.DataHash = b.Data.Hash()
 	if len(ev) > 0 {
